@@ -1,7 +1,35 @@
-import Quanto.Linear
+/-
+Property C07 — the quantized linear returns the product of the dequantized operands plus bias
+within the floating point error of one accumulation; all internal kernel routes (integer GEMM,
+int8-packed GEMM, float fallback) agree with that reference; the result is finite whenever the
+reference is representable.
+
+* T1 `C07_route_*`: the route tables of the three devices, one `iff` per kernel;
+* T2 `C07_route_preconditions`: the integer kernel only sees int8 × int8 payloads, the packed
+  kernel only bfloat16 activations × int8 weights;
+* T3 `C07_kernels_agree`, `C07_routes_agree`: whenever a payload is int8 the three kernels compute
+  the same element — `cast_outF (fl32 (fl32 acc · scale))`;
+* T4 `C07_scale_factorisation`, `C07_dotRows_scaled`: scales factor out of the contraction
+  (exact algebra), so the accumulator times the scales is the product of the exactly dequantized
+  operands;
+* T5 `C07_element_error`: explicit error envelope of an element (three roundings),
+  `C07_element_finite`: no overflow when the (slightly inflated) reference fits the output format,
+  `C07_linear_error`: the envelope at the level of `linearQBytes`, scale product included;
+* T6 `C07_linear_shape_and_element`, `C07_batch_flattening`: shape / size / element equation of
+  `linearQBytes`, meaning of `view(-1, in_features)`;
+* T7 `C07_counterexample_float8_f16_overflow`: float8 × float8 payloads are multiplied in the
+  output dtype *before* the scales are applied: in float16 the accumulator overflows although the
+  scaled result is representable (recorded finding; the third clause of the property fails there);
+* T8 `C07_int_accumulator_bound`: the int32 accumulator cannot overflow for `in_features ≤ 131071`
+  (and `C07_int_accumulator_bound_sharp`: 131072 is reached).
+-/
+import Proofs.C07.Lemmas
 namespace Quanto
 
-/-- placeholder until the matmul proofs land: the CPU route uses the integer GEMM exactly when both payloads are int8 (torch ≥ 2.4) -/
+/-! ## T1 — route tables -/
+
+/-- the CPU route uses the integer GEMM exactly when both payloads are int8 (torch ≥ 2.4) and
+`in_features > 1` -/
 theorem C07_route_cpu_int (c : MmConfig) : routeCPU c = .intMm ↔ (c.torchGe24 = true ∧ c.act = .int8 ∧ c.weight = .int8 ∧ c.inF > 1) := by
   unfold routeCPU
   constructor
@@ -10,5 +38,421 @@ theorem C07_route_cpu_int (c : MmConfig) : routeCPU c = .intMm ↔ (c.torchGe24 
     · rename_i h1; simp at h1; exact ⟨h1.1.1.1, h1.1.1.2, h1.1.2, h1.2⟩
     · split at h <;> simp at h
   · intro ⟨h1, h2, h3, h4⟩; simp [h1, h2, h3, h4]
+
+/-- the CPU route uses the int8-packed GEMM exactly when the integer GEMM is not selected, the
+activations are bfloat16, the weights int8 and `in_features` is a multiple of 16 -/
+theorem C07_route_cpu_pack (c : MmConfig) :
+    routeCPU c = .int8packMm ↔
+      (¬ (c.torchGe24 = true ∧ c.act = .int8 ∧ c.weight = .int8 ∧ c.inF > 1) ∧
+        c.act = .bf16 ∧ c.weight = .int8 ∧ c.inF % 16 = 0) := by
+  unfold routeCPU
+  split_ifs with h1 h2 <;> simp_all
+
+/-- every other CPU configuration goes through the float kernel -/
+theorem C07_route_cpu_float (c : MmConfig) :
+    routeCPU c = .floatMm ↔
+      (¬ (c.torchGe24 = true ∧ c.act = .int8 ∧ c.weight = .int8 ∧ c.inF > 1) ∧
+        ¬ (c.act = .bf16 ∧ c.weight = .int8 ∧ c.inF % 16 = 0)) := by
+  unfold routeCPU
+  split_ifs with h1 h2 <;> simp_all
+
+theorem C07_route_cuda_int (c : MmConfig) :
+    routeCUDA c = .intMm ↔
+      (c.act = .int8 ∧ c.weight = .int8 ∧ 16 < c.rows ∧ c.rows % 8 = 0 ∧ c.inF % 8 = 0 ∧
+        c.outF % 8 = 0) := by
+  unfold routeCUDA
+  split_ifs with h1 <;> simp_all
+
+theorem C07_route_cuda_float (c : MmConfig) :
+    routeCUDA c = .floatMm ↔
+      ¬ (c.act = .int8 ∧ c.weight = .int8 ∧ 16 < c.rows ∧ c.rows % 8 = 0 ∧ c.inF % 8 = 0 ∧
+        c.outF % 8 = 0) := by
+  unfold routeCUDA
+  split_ifs with h1 <;> simp_all
+
+theorem C07_route_cuda_never_pack (c : MmConfig) : routeCUDA c ≠ .int8packMm := by
+  unfold routeCUDA
+  split_ifs <;> simp
+
+theorem C07_route_mps_pack (c : MmConfig) :
+    routeMPS c = .int8packMm ↔
+      (c.torchGe24 = true ∧ c.act = .bf16 ∧ c.weight = .int8 ∧ c.inF % 32 = 0 ∧
+        c.outF % 32 = 0) := by
+  unfold routeMPS
+  split_ifs with h1 <;> simp_all
+
+theorem C07_route_mps_float (c : MmConfig) :
+    routeMPS c = .floatMm ↔
+      ¬ (c.torchGe24 = true ∧ c.act = .bf16 ∧ c.weight = .int8 ∧ c.inF % 32 = 0 ∧
+        c.outF % 32 = 0) := by
+  unfold routeMPS
+  split_ifs with h1 <;> simp_all
+
+theorem C07_route_mps_never_int (c : MmConfig) : routeMPS c ≠ .intMm := by
+  unfold routeMPS
+  split_ifs <;> simp
+
+/-! ## T2 — preconditions of the specialised kernels, on every device -/
+
+/-- on every device the integer kernel is only chosen when both payloads are int8, the packed
+kernel only when the activations are bfloat16 and the weights int8 -/
+theorem C07_route_preconditions (route : MmConfig → MmKernel)
+    (hr : route ∈ [routeCPU, routeCUDA, routeMPS]) (c : MmConfig) :
+    (route c = .intMm → c.act = .int8 ∧ c.weight = .int8) ∧
+    (route c = .int8packMm → c.act = .bf16 ∧ c.weight = .int8) := by
+  simp only [List.mem_cons, List.not_mem_nil, or_false] at hr
+  rcases hr with rfl | rfl | rfl
+  · exact ⟨fun h => let ⟨_, a, w, _⟩ := (C07_route_cpu_int c).mp h; ⟨a, w⟩,
+      fun h => let ⟨_, a, w, _⟩ := (C07_route_cpu_pack c).mp h; ⟨a, w⟩⟩
+  · exact ⟨fun h => let ⟨a, w, _⟩ := (C07_route_cuda_int c).mp h; ⟨a, w⟩,
+      fun h => absurd h (C07_route_cuda_never_pack c)⟩
+  · exact ⟨fun h => absurd h (C07_route_mps_never_int c),
+      fun h => let ⟨_, a, w, _⟩ := (C07_route_mps_pack c).mp h; ⟨a, w⟩⟩
+
+/-! ## T3 — the kernels agree -/
+
+/-- with an int8 payload on either side, the three kernels compute the same element for every
+accumulator and every scale (finite or not), in every working output format -/
+theorem C07_kernels_agree_general (k : MmKernel) (outF : Fmt) (hF : WorkFmt outF)
+    (act weight : Payload) (hint : act = .int8 ∨ weight = .int8) (acc : Rat) (s : FV) :
+    mmElement k outF act weight acc s = mmElement .floatMm outF act weight acc s := by
+  rw [mmElement_float_of_int8 outF (work_p_le outF hF) hint]
+  cases k
+  · exact mmElement_float_of_int8 outF (work_p_le outF hF) hint acc s
+  · rfl
+  · rfl
+
+/-- integer GEMM (int8 × int8) and packed GEMM (bfloat16 × int8) against the float fallback -/
+theorem C07_kernels_agree (outF : Fmt) (hF : WorkFmt outF) (acc : Rat) (s : FV) :
+    mmElement .intMm outF .int8 .int8 acc s = mmElement .floatMm outF .int8 .int8 acc s ∧
+    mmElement .int8packMm outF .bf16 .int8 acc s = mmElement .floatMm outF .bf16 .int8 acc s :=
+  ⟨C07_kernels_agree_general _ outF hF _ _ (Or.inl rfl) acc s,
+   C07_kernels_agree_general _ outF hF _ _ (Or.inr rfl) acc s⟩
+
+/-- the common value of the three kernels: accumulator to float32, times the scale in float32,
+cast to the output format -/
+theorem C07_kernel_closed_form (k : MmKernel) (outF : Fmt) (hF : WorkFmt outF)
+    (act weight : Payload) (hint : act = .int8 ∨ weight = .int8) (acc : Rat) (s : FV) :
+    mmElement k outF act weight acc s = outF.rndV (f32.fl ((f32.rnd acc).mulX s)) := by
+  rw [C07_kernels_agree_general k outF hF act weight hint,
+    mmElement_float_of_int8 outF (work_p_le outF hF) hint]
+  rfl
+
+/-- whatever kernel a device selects for a configuration, the element it computes is the element
+of the float kernel -/
+theorem C07_routes_agree (route : MmConfig → MmKernel)
+    (hr : route ∈ [routeCPU, routeCUDA, routeMPS]) (c : MmConfig) (outF : Fmt) (hF : WorkFmt outF)
+    (acc : Rat) (s : FV) :
+    mmElement (route c) outF c.act c.weight acc s = mmElement .floatMm outF c.act c.weight acc s := by
+  obtain ⟨hi, hp⟩ := C07_route_preconditions route hr c
+  cases hk : route c with
+  | floatMm => rfl
+  | intMm => exact C07_kernels_agree_general _ outF hF _ _ (Or.inl (hi hk).1) acc s
+  | int8packMm => exact C07_kernels_agree_general _ outF hF _ _ (Or.inr (hp hk).2) acc s
+
+/-! ## T4 — the scales factor out of the contraction -/
+
+/-- `Σ_{k<K} (sa·a_k)·(sw·w_k) = (sa·sw)·Σ_{k<K} a_k·w_k`, as the left fold `dotRows` performs -/
+theorem C07_scale_factorisation (sa sw : Rat) (a w : Nat → Rat) (K : Nat) :
+    (List.range K).foldl (fun acc k => acc + (sa * a k) * (sw * w k)) 0 =
+      (sa * sw) * (List.range K).foldl (fun acc k => acc + a k * w k) 0 := by
+  have := foldl_add_scale (fun k => (sa * a k) * (sw * w k)) (fun k => a k * w k) (sa * sw)
+    (List.range K) (fun k _ => by ring) 0
+  rwa [mul_zero] at this
+
+/-- the exact dot product of the exactly dequantized rows (`scale · payload`, positionwise) is the
+product of the scales times the dot product of the payloads -/
+theorem C07_dotRows_scaled (a w : T FV) (sa sw : Rat) (K i j : Nat)
+    (ha : (i + 1) * K ≤ a.data.size) (hw : (j + 1) * K ≤ w.data.size) :
+    dotRows (a.map fun v => (FV.fin sa).mulX v) (w.map fun v => (FV.fin sw).mulX v) K i j =
+      sa * sw * dotRows a w K i j :=
+  dotRows_scaled a w sa sw K i j ha hw
+
+/-! ## T5 — error envelope of one element -/
+
+/-- Error of one output element, any kernel, one payload int8 (so that the product is formed in
+float32).  With `u = f32.u = 2^-24`, `η = f32.eta = 2^-150`, `v = outF.u1 = 2^-p(outF)`,
+`θ = outF.eta1 = 2^(emin(outF) - p(outF))`:
+
+  `|y - acc·s| ≤ ((1+u)²(1+v) - 1)·|acc·s| + (1+v)·((1+u)·|s| + 1)·η + θ`. -/
+theorem C07_element_error (k : MmKernel) (outF : Fmt) (hF : WorkFmt outF) (act weight : Payload)
+    (hint : act = .int8 ∨ weight = .int8) (acc sq y : Rat)
+    (h : mmElement k outF act weight acc (.fin sq) = .fin y) :
+    |y - acc * sq| ≤ ((1 + f32.u) ^ 2 * (1 + outF.u1) - 1) * |acc * sq|
+      + (1 + outF.u1) * ((1 + f32.u) * |sq| + 1) * f32.eta + outF.eta1 := by
+  rw [C07_kernel_closed_form k outF hF act weight hint] at h
+  obtain ⟨a1, p1, h1, h2, h3⟩ := mmCore_fin_stages outF acc sq y h
+  obtain ⟨rfl, -⟩ := rnd_fin _ _ _ h1
+  obtain ⟨rfl, -⟩ := rnd_fin _ _ _ h3
+  have e1 := rndFin_err f32 acc
+  have e2 := fl_err_f32 _ _ h2
+  have e3 := rndFin_err outF p1
+  rw [← u_f32, ← eta_f32] at e1
+  exact three_stage_err (Fmt.u_nonneg f32) (pow2_pos _).le e1 e2 e3
+
+/-- float32 output: the final cast is exact, two roundings remain -/
+theorem C07_element_error_f32 (k : MmKernel) (act weight : Payload)
+    (hint : act = .int8 ∨ weight = .int8) (acc sq y : Rat)
+    (h : mmElement k f32 act weight acc (.fin sq) = .fin y) :
+    |y - acc * sq| ≤ ((1 + f32.u) ^ 2 - 1) * |acc * sq| + ((1 + f32.u) * |sq| + 1) * f32.eta := by
+  rw [C07_kernel_closed_form k f32 (by simp) act weight hint] at h
+  obtain ⟨a1, p1, h1, h2, h3⟩ := mmCore_fin_stages f32 acc sq y h
+  obtain ⟨rfl, -⟩ := rnd_fin _ _ _ h1
+  obtain ⟨hy, -⟩ := rnd_fin _ _ _ h3
+  obtain ⟨hp1, -⟩ := fl_fin f32 (by simp) _ _ h2
+  rw [flR_f32] at hp1
+  have hrep : f32.Rep p1 := hp1 ▸ rndFin_rep f32 f32_one_le_p _
+  rw [rndFin_of_rep f32 f32_one_le_p p1 hrep] at hy
+  subst hy
+  have e1 := rndFin_err f32 acc
+  have e2 := fl_err_f32 _ _ h2
+  rw [← u_f32, ← eta_f32] at e1
+  have e3 : |y - y| ≤ 0 * |y| + 0 := by simp
+  have := three_stage_err (Fmt.u_nonneg f32) (le_refl 0) e1 e2 e3
+  linarith
+
+/-- the relative coefficient of `C07_element_error` is `2u + v` up to second order -/
+theorem C07_element_error_coeff (outF : Fmt) (hF : WorkFmt outF) :
+    (1 + f32.u) ^ 2 * (1 + outF.u1) - 1 ≤ 2 * f32.u + outF.u1 + 4 * f32.u * outF.u1 := by
+  have hu : f32.u = 1 / 2 ^ 24 := by
+    rw [u_f32]; norm_num [Fmt.u1, f32, pow2_eq]
+  have hv : f32.u ≤ outF.u1 := by
+    rw [hu]
+    rcases WorkFmt.cases hF with rfl | rfl | rfl
+    · norm_num [Fmt.u1, f32, pow2_eq]
+    · norm_num [Fmt.u1, f16, pow2_eq]
+    · norm_num [Fmt.u1, bf16, pow2_eq]
+  have h0 : 0 ≤ f32.u := Fmt.u_nonneg f32
+  have h1 : f32.u ≤ 1 := by rw [hu]; norm_num
+  have hv0 : 0 ≤ outF.u1 := h0.trans hv
+  nlinarith [mul_nonneg h0 hv0, mul_nonneg h0 (mul_nonneg h0 hv0),
+    mul_le_mul_of_nonneg_left hv h0, mul_le_mul_of_nonneg_right h1 (mul_nonneg h0 hv0)]
+
+/-- No overflow on the int8 routes: if the accumulator fits float32 and the reference `acc·s`,
+inflated by one float32 rounding, fits the output format, the element is finite. -/
+theorem C07_element_finite (k : MmKernel) (outF : Fmt) (hF : WorkFmt outF) (act weight : Payload)
+    (hint : act = .int8 ∨ weight = .int8) (acc sq : Rat)
+    (hacc : |acc| ≤ f32.maxFin)
+    (hfit : ((1 + f32.u) * |acc| + f32.eta) * |sq| ≤ outF.maxFin) :
+    ∃ y, mmElement k outF act weight acc (.fin sq) = .fin y := by
+  rw [C07_kernel_closed_form k outF hF act weight hint]
+  have h1 := rnd_of_le_maxFin_aux f32 f32_one_le_p maxFin_rep_f32 acc hacc
+  rw [h1]
+  have hm : (FV.fin (f32.rndFin acc)).mulX (.fin sq) = .fin (f32.rndFin acc * sq) := rfl
+  rw [hm]
+  -- magnitude of the float32 accumulator times the scale
+  have e1 := rndFin_err f32 acc
+  rw [← u_f32, ← eta_f32] at e1
+  have ha1 : |f32.rndFin acc| ≤ (1 + f32.u) * |acc| + f32.eta := by
+    have := abs_add_le acc (f32.rndFin acc - acc)
+    rw [add_sub_cancel] at this
+    linarith
+  have hz : |f32.rndFin acc * sq| ≤ outF.maxFin := by
+    rw [abs_mul]
+    exact (mul_le_mul_of_nonneg_right ha1 (abs_nonneg sq)).trans hfit
+  obtain ⟨hz1, hz2⟩ := abs_le.mp hz
+  have h2 := fl_fin_of_le f32 (by simp) _ (hz.trans (work_maxFin_le_f32 outF hF))
+  rw [h2, rndV_fin]
+  have hrep := work_maxFin_rep_f32 outF hF
+  have hp : |f32.flR (f32.rndFin acc * sq)| ≤ outF.maxFin :=
+    abs_le.mpr ⟨le_flR_of_rep f32 (by simp) (Rep_neg hrep) hz1,
+      flR_le_of_rep f32 (by simp) hrep hz2⟩
+  exact ⟨_, rnd_of_le_maxFin_aux outF (work_one_le_p outF hF) (work_maxFin_rep outF hF) _ hp⟩
+
+/-! ## T6 — `linearQBytes` as an equation; batch flattening -/
+
+/-- Shape, size and elements of `QTensorLinear.forward`: the output has shape `batch ++ [out]`
+(`batch` = activation shape without its last dimension, `out` = first dimension of the weight) and
+element `n` is the bias-added kernel element of row `n / out` of the flattened activations and row
+`n % out` of the weight.  (`ActOperand.data / payload`, `QB.payload`, `linScale`, `addBias` are the
+projections of `linearQBytes`' own `let`s, see `Proofs/C07/Lemmas.lean`.) -/
+theorem C07_linear_shape_and_element (k : MmKernel) (F : Fmt) (x : ActOperand) (w : QB)
+    (bias : Option (T FV)) :
+    let out := w.size.headD 0
+    let K := w.size.getD 1 0
+    let y := linearQBytes k F x w bias
+    y.shape = x.data.shape.dropLast ++ [out] ∧
+    y.data.size = prod y.shape ∧
+    prod y.shape = prod x.data.shape.dropLast * out ∧
+    ∀ n, n < prod (x.data.shape.dropLast ++ [out]) →
+      y.get n = addBias F bias (n % out)
+        (mmElement k F (x.payload F) w.payload (dotRows x.data w.data K (n / out) (n % out))
+          (linScale F x w (n % out))) := by
+  intro out K y
+  have hy : y = _ := linearQBytes_eq k F x w bias
+  refine ⟨by rw [hy]; rfl, by rw [hy, T.size_ofFn]; rfl, by rw [hy]; exact prod_snoc _ _, ?_⟩
+  intro n hn
+  rw [hy, T.get_ofFn _ _ _ hn]
+
+/-- the same equation spelled out for quantized int8 activations and an int8 weight, no bias -/
+theorem C07_linear_element_int8 (k : MmKernel) (F : Fmt) (q w : QB)
+    (hq : q.Q = .qint8) (hw : w.Q = .qint8) (n : Nat)
+    (hn : n < prod (q.data.shape.dropLast ++ [w.size.headD 0])) :
+    (linearQBytes k F (.quant q) w none).get n =
+      mmElement k F .int8 .int8
+        (dotRows q.data w.data (w.size.getD 1 0) (n / w.size.headD 0) (n % w.size.headD 0))
+        (F.mul (q.scale.get 0)
+          (w.scale.get (if w.scale.data.size = 1 then 0 else n % w.size.headD 0))) := by
+  rw [(C07_linear_shape_and_element k F (.quant q) w none).2.2.2 n hn]
+  simp [addBias, ActOperand.payload, QB.payload, linScale, ActOperand.data, hq, hw, QT.isFloat]
+
+/-- `view(-1, in_features)`: for a batch shape `b` and row length `K`, row `i` of the flattened
+`[prod b, K]` view and column `k` is position `i·K + k` of the row-major data, i.e. the element
+of multi-index `unflat b i ++ [k]` of the original `b ++ [K]` tensor; conversely the element of
+batch multi-index `idx` lies in row `flat b idx`. -/
+theorem C07_batch_flattening (b : List Nat) (K : Nat) :
+    prod (b ++ [K]) = prod [prod b, K] ∧
+    (∀ i k, i < prod b → k < K →
+      flat [prod b, K] [i, k] = i * K + k ∧ unflat (b ++ [K]) (i * K + k) = unflat b i ++ [k]) ∧
+    (∀ idx k, validIdx b idx → k < K →
+      flat (b ++ [K]) (idx ++ [k]) = flat [prod b, K] [flat b idx, k]) := by
+  refine ⟨by rw [prod_snoc]; simp [prod], ?_, ?_⟩
+  · intro i k hi hk
+    exact ⟨by simp [flat, prod], unflat_snoc b K i k hi hk⟩
+  · intro idx k hv _
+    rw [flat_snoc b idx K k (validIdx_length b idx hv)]
+    simp [flat, prod]
+
+/-! ## T5 at the level of the layer -/
+
+/-- Quantized activations (per-tensor scale `sa`) times a QBytes weight (scale `sw` for the output
+feature at hand), at least one of the payloads int8, no bias: a finite output element `y` differs
+from the product of the dequantized operands `sa·sw·Σ a_k w_k` (see `C07_dotRows_scaled`) by the
+element envelope of `C07_element_error` at the rounded scale product `sq = fl_F(sa·sw)` plus the
+rounding of that product. -/
+theorem C07_linear_error (k : MmKernel) (F : Fmt) (hF : WorkFmt F) (q w : QB)
+    (hint : q.Q = .qint8 ∨ w.Q = .qint8) (n : Nat)
+    (hn : n < prod (q.data.shape.dropLast ++ [w.size.headD 0])) (sa sw y : Rat)
+    (hsa : q.scale.get 0 = .fin sa)
+    (hsw : w.scale.get (if w.scale.data.size = 1 then 0 else n % w.size.headD 0) = .fin sw)
+    (hy : (linearQBytes k F (.quant q) w none).get n = .fin y) :
+    let acc := dotRows q.data w.data (w.size.getD 1 0) (n / w.size.headD 0) (n % w.size.headD 0)
+    ∃ sq, F.mul (.fin sa) (.fin sw) = .fin sq ∧
+      |sq - sa * sw| ≤ F.u * |sa * sw| + F.eta ∧
+      |y - sa * sw * acc| ≤
+        ((1 + f32.u) ^ 2 * (1 + F.u1) - 1) * |acc * sq|
+          + (1 + F.u1) * ((1 + f32.u) * |sq| + 1) * f32.eta + F.eta1
+          + |acc| * (F.u * |sa * sw| + F.eta) := by
+  intro acc
+  rw [(C07_linear_shape_and_element k F (.quant q) w none).2.2.2 n hn] at hy
+  simp only [addBias, linScale, hsa, hsw, ActOperand.data] at hy
+  have hpay : (ActOperand.quant q).payload F = .int8 ∨ w.payload = .int8 := by
+    rcases hint with h | h
+    · left; simp [ActOperand.payload, h, QT.isFloat]
+    · right; simp [QB.payload, h, QT.isFloat]
+  have hy' := hy
+  rw [C07_kernel_closed_form k F hF _ _ hpay] at hy'
+  obtain ⟨sq, hs⟩ := mmCore_fin_scale F _ _ y hy'
+  refine ⟨sq, hs, ?_, ?_⟩
+  · exact fl_err F hF _ _ hs
+  · rw [hs] at hy
+    have e := C07_element_error k F hF _ _ hpay _ sq y hy
+    have es := fl_err F hF _ _ hs
+    have : |y - sa * sw * acc| ≤ |y - acc * sq| + |acc| * |sq - sa * sw| := by
+      have := abs_add_le (y - acc * sq) (acc * (sq - sa * sw))
+      rw [abs_mul] at this
+      have h2 : y - acc * sq + acc * (sq - sa * sw) = y - sa * sw * acc := by ring
+      rwa [h2] at this
+    have := mul_le_mul_of_nonneg_left es (abs_nonneg acc)
+    linarith
+
+/-! ## T7 — float8 × float8: the accumulation overflows float16 before the scales apply -/
+
+/-- Recorded finding: with float8 payloads on both sides the float kernel multiplies in the output
+dtype.  Two e4m3 maxima (448·448 = 200704 > 65504) overflow float16, the scale `2^-16` arrives
+too late, although the scaled value `3.0625` is a float16 number.  In bfloat16 / float32 the same
+element is finite. -/
+theorem C07_counterexample_float8_f16_overflow :
+    mmElement .floatMm f16 .float8 .float8 (448 * 448 : Rat) (.fin (1 / 65536)) = .pinf ∧
+    (448 * 448 : Rat) * (1 / 65536) = 3.0625 ∧
+    f16.representable ((448 * 448 : Rat) * (1 / 65536)) = true ∧
+    mmElement .floatMm bf16 .float8 .float8 (448 * 448 : Rat) (.fin (1 / 65536)) = .fin 3.0625 ∧
+    mmElement .floatMm f32 .float8 .float8 (448 * 448 : Rat) (.fin (1 / 65536)) = .fin 3.0625 := by
+  refine ⟨?_, ?_, ?_, ?_, ?_⟩ <;> decide +kernel
+
+/-! ## T8 — the int32 accumulator of `torch._int_mm` -/
+
+/-- payload values in `[-128, 127]` and `in_features ≤ 131071`: the exact accumulator is below
+`2^31` in magnitude (integrality of the payloads is not needed for the bound) -/
+theorem C07_int_accumulator_bound (a w : T FV) (K i j : Nat) (hK : K ≤ 131071)
+    (ha : ∀ n x, a.get n = .fin x → -128 ≤ x ∧ x ≤ 127)
+    (hw : ∀ n y, w.get n = .fin y → -128 ≤ y ∧ y ≤ 127) :
+    |dotRows a w K i j| < 2 ^ 31 := by
+  have h := dotRows_abs_le a w 128 128 (by norm_num) (by norm_num)
+    (fun n x hx => abs_le.mpr ⟨(ha n x hx).1, by linarith [(ha n x hx).2]⟩)
+    (fun n y hy => abs_le.mpr ⟨(hw n y hy).1, by linarith [(hw n y hy).2]⟩) K i j
+  have hK' : (K : Rat) ≤ 131071 := by exact_mod_cast hK
+  have : (K : Rat) * (128 * 128) ≤ 131071 * (128 * 128) :=
+    mul_le_mul_of_nonneg_right hK' (by norm_num)
+  calc |dotRows a w K i j| ≤ (K : Rat) * (128 * 128) := h
+    _ ≤ 131071 * (128 * 128) := this
+    _ < 2 ^ 31 := by norm_num
+
+/-- the bound on `in_features` is sharp: 131072 products `(-128)·(-128)` reach `2^31` -/
+theorem C07_int_accumulator_bound_sharp :
+    ∃ a w : T FV,
+      (∀ n x, a.get n = .fin x → -128 ≤ x ∧ x ≤ 127) ∧
+      (∀ n y, w.get n = .fin y → -128 ≤ y ∧ y ≤ 127) ∧
+      dotRows a w 131072 0 0 = 2 ^ 31 := by
+  have hrange : ∀ n x, (constRow 131072 (-128)).get n = .fin x → -128 ≤ x ∧ x ≤ 127 := by
+    intro n x hx
+    rcases constRow_get 131072 (-128) n with h | h <;> rw [h] at hx <;> cases hx <;> norm_num
+  refine ⟨constRow 131072 (-128), constRow 131072 (-128), hrange, hrange, ?_⟩
+  rw [dotRows_constRow]
+  norm_num
+
+/-! ## Non-vacuity -/
+
+-- T1: concrete configurations
+example : routeCPU ⟨.int8, .int8, 4, 64, 32, true⟩ = .intMm := by decide
+example : routeCPU ⟨.int8, .int8, 4, 1, 32, true⟩ = .floatMm := by decide
+example : routeCPU ⟨.int8, .int8, 4, 64, 32, false⟩ = .floatMm := by decide
+example : routeCPU ⟨.bf16, .int8, 4, 64, 32, true⟩ = .int8packMm := by decide
+example : routeCPU ⟨.bf16, .int8, 4, 24, 32, true⟩ = .floatMm := by decide
+example : routeCUDA ⟨.int8, .int8, 24, 64, 32, true⟩ = .intMm := by decide
+example : routeCUDA ⟨.int8, .int8, 16, 64, 32, true⟩ = .floatMm := by decide
+example : routeMPS ⟨.bf16, .int8, 4, 64, 32, true⟩ = .int8packMm := by decide
+example : routeMPS ⟨.bf16, .int8, 4, 64, 48, true⟩ = .floatMm := by decide
+
+-- T3: the three kernels on acc = 1234, scale 1/8, float16 output: 154.25 (exact)
+example : mmElement .intMm f16 .int8 .int8 1234 (.fin (1 / 8)) = .fin 154.25 := by decide +kernel
+example : mmElement .floatMm f16 .int8 .int8 1234 (.fin (1 / 8)) = .fin 154.25 := by decide +kernel
+example : mmElement .int8packMm bf16 .bf16 .int8 1234 (.fin (1 / 8)) = .fin 154 := by decide +kernel
+example : mmElement .floatMm bf16 .bf16 .int8 1234 (.fin (1 / 8)) = .fin 154 := by decide +kernel
+
+-- T5: the hypothesis of the envelope is satisfiable, and the envelope is small
+example : |(154.25 : Rat) - 1234 * (1 / 8)| ≤ ((1 + f32.u) ^ 2 * (1 + f16.u1) - 1) * |(1234 : Rat) * (1 / 8)|
+      + (1 + f16.u1) * ((1 + f32.u) * |(1 / 8 : Rat)| + 1) * f32.eta + f16.eta1 :=
+  C07_element_error .floatMm f16 (by simp) .int8 .int8 (Or.inl rfl) 1234 (1 / 8) 154.25
+    (by decide +kernel)
+
+example : ((1 + f32.u) ^ 2 * (1 + f16.u1) - 1) * |(1234 : Rat) * (1 / 8)|
+      + (1 + f16.u1) * ((1 + f32.u) * |(1 / 8 : Rat)| + 1) * f32.eta + f16.eta1 < 0.0754 := by
+  decide +kernel
+
+-- a rounded case: bfloat16 output, 154.25 → 154, within the envelope
+example : |(154 : Rat) - 1234 * (1 / 8)| ≤ ((1 + f32.u) ^ 2 * (1 + bf16.u1) - 1) * |(1234 : Rat) * (1 / 8)|
+      + (1 + bf16.u1) * ((1 + f32.u) * |(1 / 8 : Rat)| + 1) * f32.eta + bf16.eta1 :=
+  C07_element_error .int8packMm bf16 (by simp) .bf16 .int8 (Or.inr rfl) 1234 (1 / 8) 154
+    (by decide +kernel)
+
+-- T5 finiteness: hypotheses hold on the same numbers
+example : ∃ y, mmElement .intMm f16 .int8 .int8 1234 (.fin (1 / 8)) = .fin y :=
+  C07_element_finite .intMm f16 (by simp) .int8 .int8 (Or.inl rfl) 1234 (1 / 8)
+    (by decide +kernel) (by decide +kernel)
+
+-- T4 on numbers
+example : (List.range 3).foldl (fun acc k => acc + ((1 / 2 : Rat) * (k + 1)) * ((1 / 4 : Rat) * (2 * k + 1))) 0
+    = (1 / 2 * (1 / 4)) * (List.range 3).foldl (fun acc k => acc + ((k : Rat) + 1) * (2 * k + 1)) 0 :=
+  C07_scale_factorisation (1 / 2) (1 / 4) (fun k => (k : Rat) + 1) (fun k => 2 * (k : Rat) + 1) 3
+
+-- T6: a 2×3 quantized activation against a 2×3 weight; T8 on the same tensors
+example :
+    (linearQBytes .intMm f32
+      (.quant ⟨f32, .qint8, none, [2, 3], ⟨[2, 3], #[.fin 1, .fin 2, .fin 3, .fin (-4), .fin 5, .fin 6]⟩, ⟨[], #[.fin (1 / 2)]⟩⟩)
+      ⟨f32, .qint8, some true, [2, 3], ⟨[2, 3], #[.fin 1, .fin 0, .fin (-1), .fin 2, .fin 2, .fin 2]⟩, ⟨[2, 1], #[.fin (1 / 4), .fin 1]⟩⟩
+      none).data = #[.fin (-1 / 4), .fin 6, .fin (-5 / 4), .fin 7] := by decide +kernel
+
+example : flat [2, 3, 4] [1, 2, 3] = flat [2 * 3, 4] [flat [2, 3] [1, 2], 3] := by decide
 
 end Quanto
